@@ -5,7 +5,7 @@ import SigmaVerif.Lemmas.Filter
 Property theorems only; the proofs are in `SigmaVerif/Lemmas/Filter.lean`.
 
 * applicability: `applies_not_correlation`, `applies_iff`, `covers_iff` (+ `covers_refl`,
-  `covers_trans`, `covers_empty`)
+  `covers_trans`, `covers_empty`, `covers_empty_string_is_specified`)
 * the token scan on the canonical spelling renames exactly the names: `rewrite_pp`
 * the renamed condition means the same over the renamed detections: `rewrite_keeps_keywords`
   (+ `rewrite_keeps_keywords_open`, `rewrite_keeps_shape`), and the finding D10c
@@ -75,6 +75,20 @@ theorem covers_empty (r : LogSource) : (⟨none, none, none⟩ : LogSource).cove
 
 example : (⟨none, none, none⟩ : LogSource).covers ⟨some "a".toList, none, none⟩ = true :=
   covers_empty _
+
+/-- **the empty string is a specified value**: an attribute the filter gives as `""` is not "left out" — the filter
+then covers only rules whose attribute is the empty string too (not rules with another value, nor rules without one) -/
+theorem covers_empty_string_is_specified (f r : LogSource) (h : f.covers r = true) :
+    (f.category = some [] → r.category = some []) ∧
+    (f.product = some [] → r.product = some []) ∧
+    (f.service = some [] → r.service = some []) := by
+  obtain ⟨h1, h2, h3⟩ := (covers_iff f r).mp h
+  exact ⟨h1 [], h2 [], h3 []⟩
+
+example : (⟨some "win".toList, none, some []⟩ : LogSource).covers ⟨some "win".toList, none, some "security".toList⟩ = false ∧
+    (⟨some "win".toList, none, some []⟩ : LogSource).covers ⟨some "win".toList, none, none⟩ = false ∧
+    (⟨some "win".toList, none, some []⟩ : LogSource).covers ⟨some "win".toList, some "p".toList, some []⟩ = true ∧
+    (⟨some "win".toList, none, none⟩ : LogSource).covers ⟨some "win".toList, none, some []⟩ = true := by decide
 
 /-! ## 2. The scan renames exactly the names
 
